@@ -178,7 +178,7 @@ Definition src2_fava (re_match : pyval -> pyval -> pyval) (v_ava : pyval) (v_att
    | BErr => PErr
    end).
 
-(* saml2/assertion.py:Policy.filter, lines 500-548 *)
+(* saml2/assertion.py:Policy.filter, lines 504-552 *)
 Definition src2_policy_filter (ac_factory : pyval) (get_entity_categories : pyval -> pyval -> pyval -> pyval -> pyval) (fava : pyval -> pyval -> pyval) (foa : pyval -> pyval -> pyval -> pyval -> pyval -> pyval) (get_fail : pyval -> pyval -> pyval) (get_ar : pyval -> pyval -> pyval) (v_self : pyval) (v_ava : pyval) (v_sp_entity_id : pyval) (v_mdstore : pyval) (v_required : pyval) (v_optional : pyval) (v_fail_on_missing : pyval) : pyval :=
   let v_warn_msg := PErr in
   let v_subject_ava := PErr in
@@ -221,7 +221,7 @@ Definition src2_policy_filter (ac_factory : pyval) (get_entity_categories : pyva
    | BErr => PErr
    end)).
 
-(* saml2/assertion.py:Policy.restrict, lines 550-580 *)
+(* saml2/assertion.py:Policy.restrict, lines 554-584 *)
 Definition src2_policy_restrict (attribute_requirement : pyval -> pyval -> pyval) (subject_id_requirement : pyval -> pyval -> pyval) (policy_filter : pyval -> pyval -> pyval -> pyval -> pyval -> pyval -> pyval) (v_self : pyval) (v_ava : pyval) (v_sp_entity_id : pyval) (v_metadata : pyval) (v_fail_on_missing : pyval) : pyval :=
   let v_warn_msg := PErr in
   let v_metadata_store := PErr in
